@@ -8,6 +8,7 @@ template tag, etc.) that should be kept together as a single token during line w
 from __future__ import annotations
 
 import re
+from collections.abc import Iterator
 from dataclasses import dataclass
 
 
@@ -190,3 +191,48 @@ ATOMIC_CONSTRUCT_PATTERN: re.Pattern[str] = re.compile(
     "|".join(p.pattern for p in ATOMIC_PATTERNS),
     re.DOTALL,
 )
+
+# Every atomic construct starts with one of these characters.
+_CONSTRUCT_START: re.Pattern[str] = re.compile(r"[`\[{<]")
+
+# The text each kind of construct has to end with, by how the construct starts.
+_CLOSER_BY_OPENER: tuple[tuple[str, str], ...] = (
+    ("`", "`"),
+    ("[", "]"),
+    ("{%", "%}"),
+    ("{#", "#}"),
+    ("{{", "}}"),
+    ("<!--", "-->"),
+    ("<", ">"),
+)
+
+
+def iter_atomic_constructs(text: str) -> Iterator[re.Match[str]]:
+    """
+    The matches of `ATOMIC_CONSTRUCT_PATTERN.finditer(text)`, in time linear in the text.
+
+    The bodies of the patterns are lazy or negated-class scans for the closing delimiter,
+    so an opener with no closer after it makes the regex scan to the end of the text and
+    fail. With thousands of unclosed openers (`a<b` comparisons, `[`, `{{`) that is
+    quadratic. An opener whose closer does not occur later in the text cannot start a
+    construct and is skipped without trying the pattern.
+    """
+    last_closer = {closer: text.rfind(closer) for _opener, closer in _CLOSER_BY_OPENER}
+    pos = 0
+    while True:
+        start_match = _CONSTRUCT_START.search(text, pos)
+        if start_match is None:
+            return
+        start = start_match.start()
+        match = None
+        for opener, closer in _CLOSER_BY_OPENER:
+            if text.startswith(opener, start):
+                if last_closer[closer] >= start + len(opener):
+                    match = ATOMIC_CONSTRUCT_PATTERN.match(text, start)
+                break
+        if match is None:
+            pos = start + 1
+        else:
+            yield match
+            # An empty match is not possible: every pattern has both delimiters.
+            pos = match.end()
